@@ -692,7 +692,7 @@ func malgen() {
 		for ver := lo; ver <= hi; ver++ {
 			modes := []int{1}
 			if gen.Thorough() {
-				modes = []int{1, 2, 2}
+				modes = []int{1, 2}
 			}
 			for _, mode := range modes {
 				f := &filler{r: r, payloads: msgs.Payloads{}, version: ver, mode: mode}
